@@ -234,6 +234,42 @@ def greedy_indep(w, cur_obs, v):
     return [k[0] for k in kept], hops
 
 
+# ---- live-object histories -----------------------------------------------------------------
+# Mechanism class covered: a Track carries cached observations (has_duplicate_timestamps, time_start_diffs,
+# centroid_distances, bounds, convex_hull, geospan) and every derivation can be SPELLED several ways - `t + o`, `t += o`
+# (rebinds the name on a class without __iadd__, mutates the object on one with it), sum(others, t), reduce(add, [t, ...]),
+# `t = t[a:b]` - any of which may reuse the object or part of its state (an in-place extension that forgets to re-sort,
+# to drop a cache, to re-validate; a sum that carries a cache over).  Such a shortcut shows only when the observation was
+# READ on that very object BEFORE the derivation and is asked again AFTER.  Histories therefore follow ONE name: reads
+# (each compared with the same observation on a Track freshly built from the same shapes), derivations in every spelling
+# (the rebinding is followed: the object the name is bound to afterwards is the track), read-only queries in between
+# (convolve, slices, speed filter: compared with the model in Coq and with the property).
+LIVE_READS = ['has_duplicate_timestamps', 'has_duplicate_timestamps', 'convolve', 'first', 'last', 'start', 'end', 'len',
+              'time_start_diffs', 'centroid_distances', 'bounds', 'convex_hull', 'geospan']
+
+
+def canon_obs(w, t, name):
+    """a comparable value of observation `name` on track t (same shapes => same value, whatever the object's past)"""
+    if name == 'len':
+        return len(t)
+    if name == 'convolve':
+        return [(of_dt(x.start), of_dt(x.end), x.centroid.longitude, x.centroid.latitude) for x in t.convolve_duplicate_timestamps().geoshapes]
+    v = getattr(t, name)
+    if name in ('first', 'last'):
+        return w.idmap[id(v)]
+    if name in ('start', 'end'):
+        return of_dt(v)
+    if name == 'time_start_diffs':
+        return [d // US for d in v]
+    if name == 'centroid_distances':
+        return [float(d) for d in v]
+    if name == 'convex_hull':
+        return [(c.longitude, c.latitude) for c in v.outline]
+    if name == 'bounds':
+        return tuple(v)
+    return v
+
+
 def run_case(spec):
     """spec: {'items': [...], 'ops': [...]} (JSON-able).  Drives the implementation, returns
     (gallina literal or None, meta, failures of the property itself, counters)"""
@@ -245,7 +281,7 @@ def run_case(spec):
         shapes.append(sh)
     raws = [raw_lit(w, sh, w.idmap[id(sh)]) for sh in shapes]
     fails, stats = [], {'near_ties': 0, 'exact_ties': 0, 'merged': 0, 'steps': 0, 'classes': [],
-                    'ref_judged': 0, 'ref_skipped': 0, 'ref_hops': {'anti': 0, 'prime': 0, 'pole': 0}, 'ref_dropped': 0}
+                    'ref_judged': 0, 'ref_skipped': 0, 'ref_hops': {'anti': 0, 'prime': 0, 'pole': 0}, 'ref_dropped': 0, 'live_reads': 0}
     r0 = guarded(lambda: Track(list(shapes)))
     first = res_ids(w, r0)
     meta = {'spec': spec, 'first': first, 'steps': []}
@@ -274,7 +310,63 @@ def run_case(spec):
             news_lit = '[]'
             hd_lit = 'None'
             exp = None          # expected ids by the property
-            if kind == 'add':
+            if kind == 'read':
+                # an observation on the live object against the same observation on a Track freshly built from its shapes
+                name = op[1]
+                fresh = Track(list(before))
+                got, want = guarded(lambda: canon_obs(w, cur, name)), guarded(lambda: canon_obs(w, fresh, name))
+                stats['live_reads'] += 1
+                done = [s_['op'][0] for s_ in meta['steps'] if s_['op'][-1]]
+                if got != want:
+                    fails.append(('live-object:' + name, f'after {done}: {name} on the track object is {got}; on Track(<the same '
+                                                         f'{len(before)} shapes>) it is {want}'))
+                keys = [(o[1], o[2]) for o in cur_obs]
+                if name == 'has_duplicate_timestamps' and got[0] == 'Ok' and got[1] != (len(set(keys)) != len(keys)):
+                    fails.append(('convolve_spec', f'after {done}: has_duplicate_timestamps={got[1]} on timestamps {keys}'))
+                if name == 'convolve' and got[0] == 'Ok' and (len({g[:2] for g in got[1]}) != len(got[1]) or {g[:2] for g in got[1]} != set(keys)):
+                    fails.append(('convolve_spec', f'after {done}: convolving timestamps {keys} leaves {[g[:2] for g in got[1]]}'))
+                if [id(x) for x in cur.geoshapes] != [id(x) for x in before]:
+                    fails.append((kind, f'reading {name} modified the track'))
+                meta['steps'].append({'op': op, 'result': got, 'fresh_track': want})
+                continue
+            if kind in ('iadd', 'sum', 'reduce'):
+                # the other spellings of concatenation: `t += o` | sum([o1, o2..], t) | reduce(add, [t, o1, o2..]); op[2] names the
+                # observations read on the other operand(s) beforehand.  Stable sorting makes the chain equal ONE concatenation
+                # with the others' shapes in sequence, which is how it is handed to the model (OAdd)
+                import functools
+                import operator
+                groups = [op[1]] if kind == 'iadd' else op[1]
+                others, extra_obs, sorted_obs = [], [], []
+                for g in groups:
+                    ex = []
+                    for it in g:
+                        sh = build_shape(it, w.next_id)
+                        w.register(sh)
+                        ex.append(sh)
+                    others.append(Track(list(ex)))
+                    go = [w.obs(x) for x in ex]
+                    extra_obs += go
+                    sorted_obs += sorted(go, key=lambda o: o[1])
+                for o_, names in zip(others, op[2]):
+                    for nm in names:
+                        guarded(lambda: canon_obs(w, o_, nm))
+                if kind == 'iadd':
+                    def spell():
+                        x = cur
+                        x += others[0]
+                        return x                      # whatever the name is bound to now
+                elif kind == 'sum':
+                    def spell():
+                        return sum(others, cur)
+                else:
+                    def spell():
+                        return functools.reduce(operator.add, [cur] + others)
+                r = guarded(spell)
+                lit = f'OAdd {listlit([item_lit(o) for o in extra_obs])}'
+                exp = ('Ok', [o[0] for o in sorted(cur_obs + sorted_obs, key=lambda o: o[1])])
+                if kind == 'iadd' and r[0] == 'Ok' and r[1] is cur:
+                    before = list(cur.geoshapes)      # extended in place: allowed; what matters is what the name now holds
+            elif kind == 'add':
                 extra = []
                 for it in op[1]:
                     sh = build_shape(it, w.next_id)
@@ -401,7 +493,8 @@ def run_case(spec):
                 if any(a > b for a, b in zip(sts, sts[1:])):
                     fails.append(('ops_sorted', f'{kind}: result not chronological: ids {rid[1]}'))
             if exp is not None and rid != exp:
-                fails.append(({'slice': 'slice_spec', 'fij': 'fij_spec', 'add': 'ops_sorted/add', 'fdt': 'filter_by_dt',
+                fails.append(({'slice': 'slice_spec', 'fij': 'fij_spec', 'add': 'ops_sorted/add', 'iadd': 'ops_sorted/add',
+                               'sum': 'ops_sorted/add', 'reduce': 'ops_sorted/add', 'fdt': 'filter_by_dt',
                                'fiv': 'filter_by_dt', 'ftime': 'filter_by_time_spec'}.get(kind, kind),
                               f'{op}: implementation gives {rid}, the property demands {exp}'))
             if kind == 'fij' and cur_obs and rid[0] == 'Ok':
@@ -635,6 +728,71 @@ def route_spec(rng, n, where):
     return {'items': items, 'ops': ops}
 
 
+# ---- H. live-object histories (see LIVE_READS above) -----------------------------------------
+def live_spec(rng):
+    n = rng.choice([1, 2, 3, 3, 4, 5, 6, 8, 10])
+    items = gen_items(rng, n)
+    if rng.random() < 0.65:                 # no repeated timestamp to begin with: the flag starts out False
+        unit = rng.choice([SEC, 60 * SEC, 3600 * SEC, 250_000])
+        for it, sl in zip(items, rng.sample(range(0, 40), n)):
+            d = it['en'] - it['st']
+            it['st'], it['en'] = sl * unit, sl * unit + d
+    pool = [dict(it) for it in items]
+
+    def extras():
+        ex = gen_items(rng, rng.randint(1, 3))
+        mode = rng.choice(['land', 'land', 'self', 'apart', 'any'])
+        for j, it in enumerate(ex):
+            if mode == 'land' and rng.random() < 0.7 or mode == 'any' and rng.random() < 0.4:
+                src = rng.choice(pool)                       # repeats a timestamp the track already has
+                it.update(st=src['st'], en=src['en'])
+            elif mode == 'self' and j:                       # the added shapes repeat a timestamp among themselves
+                it.update(st=ex[0]['st'], en=ex[0]['en'])
+            elif mode == 'apart':                            # brings no repeated timestamp
+                t = (max(p_['en'] for p_ in pool) // SEC + 1 + rng.randint(0, 50) + 60 * j) * SEC
+                it.update(st=t, en=t)
+            if it['kind'] == 'inst' and it['st'] != it['en']:
+                it['kind'] = 'pt'
+        pool.extend(dict(it) for it in ex)
+        return ex
+
+    def query():
+        ev = events(pool)
+        u = rng.random()
+        if u < 0.3:
+            return ['conv', 0]
+        if u < 0.5:
+            return ['read', 'has_duplicate_timestamps', 0]
+        if u < 0.65:
+            b = lambda: None if rng.random() < 0.3 else rng.choice(ev) + rng.choice([-1, 0, 0, 1, SEC])     # noqa: E731
+            return ['slice', b(), b(), rng.choice(['utc', 'naive', 120]), 0]
+        if u < 0.8:
+            return ['fij', rng.choice(speed_limits(rng, pool[-12:], 3)), 0]
+        return ['read', rng.choice(LIVE_READS), 0]
+    ops = []
+    for _ in range(rng.randint(2, 6)):
+        for _ in range(rng.choice([0, 1, 1, 2, 3])):
+            ops.append(query())
+        k = rng.choice(['iadd', 'iadd', 'iadd', 'iadd', 'add', 'add', 'sum', 'reduce', 'slice', 'conv'])
+        rd = lambda: rng.sample(LIVE_READS, rng.choice([0, 0, 1, 2]))       # noqa: E731
+        if k == 'iadd':
+            ops.append(['iadd', extras(), [rd()], 1])
+        elif k == 'add':
+            ops.append(['add', extras(), 1])
+        elif k in ('sum', 'reduce'):
+            gs = [extras() for _ in range(rng.randint(2, 4))]
+            ops.append([k, gs, [rd() for _ in gs], 1])
+        elif k == 'slice':
+            ev = events(pool)
+            a, b = sorted((rng.choice(ev) + rng.choice([-1, 0, 0]), rng.choice(ev) + rng.choice([1, SEC, 2 * SEC])))
+            ops.append(['slice', rng.choice([a, None]), rng.choice([b, b, None]), rng.choice(['utc', 'naive']), 1])
+        else:
+            ops.append(['conv', 1])
+        for _ in range(rng.randint(1, 3)):
+            ops.append(query())
+    return {'items': items, 'ops': ops, 'live': True}
+
+
 def main():
     ck = Check('C17')
     ck.build_theories(['theories/Props/C17.vo', 'theories/Corr/CollK.vo'])
@@ -711,6 +869,17 @@ def main():
         for _ in range(reps if quick else reps * 10):
             n = rng.choice([2, 3, 4, 5, 6, 8, 10, 12, 14]) if rng.random() < 0.9 else rng.choice([18, 24])
             specs.append(('route:' + where, route_spec(rng, n, where)))
+    # H. live-object histories: one name through reads, `+`, `+=`, sum(), reduce, slices, with queries in between
+    for _ in range(350 if quick else 6000):
+        specs.append(('live', live_spec(rng)))
+    # fixed: every observation read, then a ping repeating the middle timestamp arrives by every spelling, then every observation again
+    mins = [{'st': k * 60 * SEC, 'en': k * 60 * SEC, 'so': 'utc', 'eo': 'utc', 'pos': list(POOL[k]), 'kind': 'pt'} for k in range(3)]
+    late = [dict(mins[1], pos=list(POOL[4]))]
+    new_ = [{'st': 9 * 60 * SEC, 'en': 9 * 60 * SEC, 'so': 'utc', 'eo': 'utc', 'pos': list(POOL[5]), 'kind': 'pt'}]
+    every = [['read', nm, 0] for nm in sorted(set(LIVE_READS))] + [['conv', 0], ['slice', None, None, 'utc', 0], ['fij', 1e12, 0]]
+    for der in (['iadd', late, [[]], 1], ['add', late, 1], ['sum', [new_, late], [[], []], 1], ['reduce', [late, new_], [['has_duplicate_timestamps'], []], 1]):
+        specs.append(('live-fixed', {'items': mins, 'ops': every + [der] + every + [['iadd', new_, [[]], 1]] + every +
+                                     [['slice', 60 * SEC, None, 'utc', 1]] + every, 'live': True}))
     # F. fixed regression corpus: D18 (open slice must keep a long shape that starts early and
     #    ends after the last-starting shape), duplicate timestamps with distinct ends, exact tie
     HOUR = 3600 * SEC
@@ -739,7 +908,7 @@ def main():
                                                  ['add', gen_items(rng, 3), 1], ['fij', 5.0, 1]]}))
 
     cases, meta, failing = [], [], {}
-    near = steps = ties = merged = 0
+    near = steps = ties = merged = live_reads = 0
     ref = {'judged': 0, 'skipped': 0, 'dropped': 0, 'anti': 0, 'prime': 0, 'pole': 0}
     distinct = set()
     for cls, spec in specs:
@@ -756,6 +925,7 @@ def main():
         ref['judged'] += stats['ref_judged']
         ref['skipped'] += stats['ref_skipped']
         ref['dropped'] += stats['ref_dropped']
+        live_reads += stats['live_reads']
         for k in ('anti', 'prime', 'pole'):
             ref[k] += stats['ref_hops'][k]
         ck.count(cls)
@@ -766,7 +936,7 @@ def main():
         its = spec['items']
         sts = [i['st'] for i in its]
         if len(set(sts)) < len(sts) or any(a['en'] > b['st'] > a['st'] for a in its for b in its):
-            if any(s['result'][0] == 'Ok' and len(s['result'][1]) < len(its) for s in m['steps']):
+            if any(s['op'][0] != 'read' and s['result'][0] == 'Ok' and len(s['result'][1]) < len(its) for s in m['steps']):
                 distinct.add(json.dumps(spec, sort_keys=True))
     ck.cov['evaluations'] = len(cases) + steps
     ck.cov['tracks'] = len(cases)
@@ -775,6 +945,7 @@ def main():
     ck.cov['near_ties_excluded'] = near
     ck.cov['exact_speed_ties_examined'] = ties
     ck.cov['pings_created_by_convolve'] = merged
+    ck.cov['observations_on_a_live_track_compared_with_a_fresh_one'] = live_reads
     ck.cov['speed_filters_judged_by_the_independent_reference'] = ref['judged']
     ck.cov['speed_filters_not_judged_by_it_(a_hop_within_1pct_of_the_limit)'] = ref['skipped']
     ck.cov['shapes_it_dropped'] = ref['dropped']
@@ -806,6 +977,11 @@ def main():
                    'and None; speed limits at/one ulp below/one ulp above pairwise speeds (cases where the float decision '
                    'differs from the exact one on an examined pair are excluded and counted in near_ties_excluded); chains '
                    'of <= 6 add/slice/filter/convolve/speed-filter operations; shapes without dt; empty tracks. '
+                   'live-object histories: ONE name through 2-6 derivations in every spelling (`t + o`, `t += o` with the rebinding followed, '
+                   'sum(others, t), reduce(add, [t, ..]), `t = t[a:b]`, convolve) whose added shapes repeat a timestamp of the track / among '
+                   'themselves / not at all, with cached and uncached observations read on the object (and on the other operands) before and '
+                   'after each one - every read compared with the same observation on a Track freshly built from the same shapes - and '
+                   'convolve / slice / speed-filter queries in between. '
                    'routes of 2..24 pings crossing the +-180 / prime / a seeded meridian (both directions, latitudes 0..88.5, turning '
                    'back, irregular sampling, repeated timestamps, far outliers) or passing a pole at 0 m..9 km, with limits well under '
                    'and well over the leg speeds, filtered directly, after a first filter and after a slice; EVERY speed-filter result '
